@@ -6,6 +6,7 @@ mod iptab;
 mod linkh;
 mod modcmp;
 mod msgh;
+mod sockh;
 mod tcbh;
 mod udph;
 
@@ -31,6 +32,7 @@ fn main() {
         "udp-drive" => udph::drive(&args),
         "arp-drive" => arph::drive(&args),
         "dns-drive" => dnsh::drive(&args),
+        "sock-drive" => sockh::drive(&args),
         "reasm-drive" => ipfrag::reasm_drive(&args),
         other => {
             eprintln!("unknown command {other}");
